@@ -10,6 +10,7 @@ from architecture_simulator.simulation.toy_simulation import ToySimulation
 from architecture_simulator.util.fixedint_12 import UInt12
 from architecture_simulator.util.integer_representations import get_n_bit_representations
 
+from vf.adapt import rv
 from vf.checks import alpha
 from vf.engine.core import Partial, pmap
 from vf.ref import fmt as F
@@ -128,8 +129,8 @@ def table_history_shard(shard):
     load_program of a program without data, reset through load_program of a program with data, look at the table}."""
     arch, depth = shard
     p = Partial()
-    if arch == "riscv":
-        addrs = (BASE, BASE + 5, BASE + 6, (1 << 32) - 1)
+    if arch.startswith("riscv"):
+        addrs = (BASE, BASE + 5, BASE + 6, (1 << 32) - 1) if arch == "riscv" else (BASE, BASE + 5, BASE + 64, BASE + 129)
         ops = [("w", a, v) for a in addrs for v in (0, 0x9C)] + [("load", "addi x1, x0, 1\n", {}), ("load", ".data\nq: .byte 7\n", {BASE: 7}), ("table",)]
     else:
         addrs = (0, 1, 2000, 4095)
@@ -139,13 +140,21 @@ def table_history_shard(shard):
         for hist in it.product(range(len(ops)), repeat=d):
             if ops[hist[-1]][0] != "table":
                 continue  # the oracle looks at the table: histories are distinguished by where they end
-            sim = RiscvSimulation() if arch == "riscv" else ToySimulation()
+            if arch == "riscv":
+                sim = RiscvSimulation()
+            elif arch.startswith("riscv"):
+                # with a data cache the table lists the words of the BACKING store (a one-set cache: the 4 addresses conflict)
+                sim = RiscvSimulation(data_cache=rv.cache_opts(0, 0, 1 if arch.endswith("1") else 2, arch.split("-")[1], "lru", 0))
+            else:
+                sim = ToySimulation()
             flat = {}
+            written = {}
             bad = None
             for oi in hist:
                 op = ops[oi]
                 if op[0] == "w":
-                    if arch == "riscv":
+                    written[op[1]] = op[2]
+                    if arch.startswith("riscv"):
                         sim.state.memory.write_byte(op[1], U8(op[2]))
                     else:
                         sim.state.memory.write_halfword(op[1], U16(op[2]))
@@ -153,9 +162,15 @@ def table_history_shard(shard):
                 elif op[0] == "load":
                     sim.load_program(op[1])
                     flat = dict(op[2])
+                    written = {}
                 else:
-                    if arch == "riscv":
+                    if arch.startswith("riscv"):
                         exp = []
+                        if arch != "riscv":
+                            # what the backing store holds right now (C12 decides whether that is what it should hold)
+                            flat = {a: int(v) for a, v in rv.backing_memory(sim).memory_file.items()}
+                            if any(a in flat and flat[a] != op_v for a, op_v in written.items()):
+                                p.counters["table-while-cache-holds-newer-data"] += 1
                         for w in sorted({a & ~3 for a in flat}):
                             exp.append(((w, "0x" + format(w, "08X")), F.fmt(sum(flat.get(w + i, 0) << (8 * i) for i in range(4)), 32)))
                         got = [((a, h), tuple(r)) for (a, h), r in sim.get_data_memory_entries()]
@@ -274,7 +289,7 @@ def run(ctx):
                 "zero-valued bytes, at the bottom and at the top of the data range: exactly the aligned words containing a written byte, ascending, true "
                 "addresses, little-endian values. Register table: every register x boundary values. TOY: every 16-bit accu value, every 12-bit pc value, "
                 "every 16-bit value in a memory cell. Table histories: every interleaving up to depth 4 (5) of byte writes (incl. value 0), resets through "
-                "load_program (with and without a data segment) and table calls, ending in a table call. Non-trivial = negative / over-wide / non-zero inputs, populations of more than one byte.")
+                "load_program (with and without a data segment) and table calls, ending in a table call; the same with a one-set write-back / write-through data cache over four conflicting addresses, where the table must list the words the BACKING store holds at that moment (also while the cache holds newer data). Non-trivial = negative / over-wide / non-zero inputs, populations of more than one byte.")
     t0 = time.time()
     # in-range negative, over-wide positive, and negative AND over-wide aliases of every value
     offs12 = (0, -(1 << 12), 1 << 12, 1 << 17, -(1 << 13), -3 * (1 << 12), -(1 << 17))
@@ -297,9 +312,10 @@ def run(ctx):
     ctx.space("memory-table", part, t0, populations=4096, orders=3)
     ctx.require("zero-valued-written-byte")
     t0 = time.time()
-    part = pmap(table_history_shard, [("riscv", 4 if ctx.quick else 6), ("toy", 4 if ctx.quick else 6)])
+    part = pmap(table_history_shard, [("riscv", 4 if ctx.quick else 6), ("toy", 4 if ctx.quick else 6)]
+                + [(a, 4 if ctx.quick else 5) for a in ("riscv-wb-1", "riscv-wb-2", "riscv-wt-1")])
     ctx.space("table-histories", part, t0, operations=11, depth=4 if ctx.quick else 6)
-    ctx.require("table-looked-at-before-a-reset")
+    ctx.require("table-looked-at-before-a-reset", "table-while-cache-holds-newer-data")
     t0 = time.time()
     part = pmap(register_shard, [0])
     ctx.space("register-table", part, t0)
